@@ -333,6 +333,33 @@ theorem judgedCode_exact (T : Tables) (fd : FontDict) (code : Int) (hj : judgedC
       simp only [tounicode_exact_noclash es code hc]
       exact ⟨hj, trivial⟩
 
+/-! ## Differences arrays written as runs -/
+
+/-- **Differences numbering**: for a Differences array made of any number of runs `code name name …` the i-th name
+of a run starting at `first` is assigned to code `first + i` (every i: the numbering neither stops nor wraps at 255,
+negative first codes included), runs are processed in order and the LAST assignment to a code - in whichever run - wins;
+codes no run reaches keep the base encoding. -/
+theorem differences_runs (gl : GlyphList) (db : EncDB) (name : String) (runs : List (Int × List (Option Name)))
+    (code : Int) :
+    tlookup (getEncoding gl db name (diffOfRuns runs)) code =
+      match lastAssigned (runs.flatMap (fun r => numberFrom r.1 r.2)) code with
+      | some nm => name2unicode gl nm
+      | none => tlookup (db.get name) code := by
+  rw [enc_overlay, assignments_runs]
+
+/-- the numbering inside one run -/
+theorem run_numbering (first : Int) (names : List (Option Name)) (i : Nat) :
+    (numberFrom first names)[i]? = (names[i]?).map (fun nm => (first + i, nm)) :=
+  numberFrom_getElem names first i
+
+-- non-vacuity: three runs, one past 255, one negative, one re-assigning a code of the first
+example :
+    let runs : List (Int × List (Option Name)) :=
+      [(254, [some ['A'], some ['B'], some ['A'], some ['B']]), (-1, [some ['B']]), (255, [some ['A']])]
+    let t := getEncoding [(['A'], [65]), (['B'], [66])] { tables := [], default := [(70, [70])] } "x" (diffOfRuns runs)
+    tlookup t 254 = some [65] ∧ tlookup t 255 = some [65] ∧ tlookup t 257 = some [66] ∧ tlookup t (-1) = some [66] ∧
+      tlookup t 0 = none ∧ tlookup t 70 = some [70] := by decide
+
 /-! ## The regenerated tables of pdfminer -/
 
 /-- The tables regenerated from glyphlist.py / latin_enc.py satisfy the table facts (kernel computation over
